@@ -131,3 +131,18 @@ pub fn gen_case2(rng: &mut Rng) -> String {
     let (s2, n2) = if mn >= 0 && mn < NS && ms > -4_000_000_000 && ms < 4_000_000_000 { add_ns(ms, mn, d) } else { (ms, mn) };
     format!("client2 {} {} {}", &base[7..], s2.min(2_147_483_648), n2)
 }
+
+/// corder: same fields as `client`; reports the order in which `now()` read the clocks
+/// (clock ids: 0 = CLOCK_REALTIME, 6 = CLOCK_MONOTONIC_COARSE) followed by its result
+pub fn exec_order(toks: &[&str]) -> String {
+    let f = parse_ints(&toks[1..]);
+    let rec = mk_record(&[f[0], f[1], f[2], f[3], f[4], f[5], 0, f[6]]);
+    vclock::set(vclock::REALTIME, f[7], f[8]);
+    vclock::set(vclock::MONOTONIC_COARSE, f[9], f[10]);
+    vclock::clear_log();
+    vclock::enable();
+    let r = guarded(|| rec.now());
+    vclock::disable();
+    let log: Vec<String> = vclock::take_log().iter().map(|x| x.to_string()).collect();
+    format!("log {} ; {}", log.join(" "), match r { Ok(r) => now_text(r), Err(_) => "panic".into() })
+}
